@@ -5,4 +5,9 @@ pub uninterp spec fn str_of_chars(c: Seq<char>) -> &'static str;
 pub broadcast proof fn axiom_str_of_chars(q: &str)
     ensures #[trigger] str_of_chars(q@) == q
 {}
+//# assumes: every sequence of chars is the text of some str (Rust's str is any sequence of Unicode scalar values)
+#[verifier::external_body]
+pub broadcast proof fn axiom_chars_of_str(c: Seq<char>)
+    ensures (#[trigger] str_of_chars(c))@ == c
+{}
 pub open spec fn string_bytes(s: String) -> Seq<u8> { str_bytes(str_of_chars(s@)) }
